@@ -42,6 +42,29 @@ def build(t, variant, share=None, memo=None):
     raise ValueError(t)
 
 
+import collections
+
+
+class MyDict(dict):
+    """a user subclass of dict"""
+
+
+def flavoured(t, variant, flavour):
+    """the value of term t with every dict replaced by another mapping type holding the same items (pickle reduces those through
+    a one-shot iterator of items, not through dict.items())"""
+    k = t[0]
+    if k == "leaf": return LEAF[t[1]]()
+    if k == "list": return [flavoured(x, variant, flavour) for x in t[1]]
+    if k == "tuple": return tuple(flavoured(x, variant, flavour) for x in t[1])
+    if k == "set": return set(flavoured(x, variant, flavour) for x in order(t[1], variant))
+    if k == "fset": return frozenset(flavoured(x, variant, flavour) for x in order(t[1], variant))
+    pairs = [(flavoured(a, variant, flavour), flavoured(b, variant, flavour)) for a, b in order(t[1], variant)]
+    if flavour == "ordered": return collections.OrderedDict(pairs)
+    if flavour == "default":
+        d = collections.defaultdict(list); d.update(pairs); return d
+    return MyDict(pairs)
+
+
 def main():
     job = json.load(open(sys.argv[1]))
     import joblib
@@ -55,6 +78,9 @@ def main():
             o = build(t, 0); rec["again"] = joblib.hash(o) == joblib.hash(o) == joblib.hash(build(t, 0))
             rec["shared_strings"] = joblib.hash(build(t, 0, "strings", {})) in rec["md5"]
             rec["shared_tuples"] = joblib.hash(build(t, 0, "tuples", {})) in rec["md5"]
+            if '"dict"' in json.dumps(t):
+                # (OrderedDict: one insertion order only - its equality depends on the order)
+                rec["flavours"] = {fl: sorted({joblib.hash(flavoured(t, v, fl)) for v in ((0,) if fl == "ordered" else (0, 1, 2))}) for fl in ("ordered", "default", "subclass")}
         except Exception as e:
             rec["exc"] = repr(e)[:200]
         out.append(rec)
